@@ -260,5 +260,10 @@ def confirm(run, d):
         res = run.harness("script", [dict(a, id="l"), dict(b, id="f")])
         return any(sig == d["sig"] for sig, _ in dep_evaluate(c["spec_case"], res[0], res[1]))
     cl = c.get("classes", False)
-    res = run.harness("diag", [{"id": "0", "schedule": c["spec_case"]["schedule"], "workspace": c["workspace"], "classes": cl is True, "aba": cl == "aba"}])[0]
-    return any(sig == d["sig"] for sig, _ in evaluate(c["spec_case"], res, cl is True, cl == "aba"))
+    # a goroutine the schedule does not gate (one that the unchanged tree does not start) makes the outcome a matter of
+    # timing: the same schedule is played up to five times
+    for _ in range(5):
+        res = run.harness("diag", [{"id": "0", "schedule": c["spec_case"]["schedule"], "workspace": c["workspace"], "classes": cl is True, "aba": cl == "aba"}])[0]
+        if any(sig == d["sig"] for sig, _ in evaluate(c["spec_case"], res, cl is True, cl == "aba")):
+            return True
+    return False
